@@ -201,3 +201,59 @@ func H_C05_OfflineSignature() {
 	nd.Cover("verified")
 	nd.Assert(nd.SigValid(algOf(dt), key, in[:6+tp], in[6+tp:]), "offline/valid-under-given-key-over-input-bytes")
 }
+
+// H_C05_Sequences: verification has no memory: after one structure verified, a SECOND structure with the same
+// identity and the same signature bytes but different signed content (published date, options) is judged on its own
+// bytes -- success still implies authenticity over the second input.  RouterInfo and LeaseSet2.
+//
+//verif:props C05
+//verif:witness second-verified
+func H_C05_Sequences() {
+	if nd.Bool() {
+		s := riShape{7, 4, 0, nil, 0, 0}
+		in1, total := s.build()
+		ri1, _, err1 := router_info.ReadRouterInfo(in1)
+		if err1 != nil {
+			return
+		}
+		ok1, verr1 := ri1.VerifySignature()
+		if verr1 != nil || !ok1 {
+			return
+		}
+		// same identity, same signature, another published date
+		in2 := append([]byte{}, in1...)
+		copy(in2[391:399], nd.Bytes(8))
+		ri2, rem2, err2 := router_info.ReadRouterInfo(in2)
+		if err2 != nil {
+			return
+		}
+		ok2, verr2 := ri2.VerifySignature()
+		if verr2 != nil || !ok2 {
+			return
+		}
+		nd.Cover("second-verified")
+		_ = total
+		authentic("seq/ri", in2, len(in2)-len(rem2), nil, destKeyOf(in2, 7), 7, -1, 0)
+		return
+	}
+	s := ls2Shape{7, 4, 0, -1, 0, []int{32}, 1, 0}
+	in1, _ := s.build()
+	l1, _, err1 := lease_set2.ReadLeaseSet2(in1)
+	if err1 != nil {
+		return
+	}
+	if l1.Verify() != nil {
+		return
+	}
+	in2 := append([]byte{}, in1...)
+	copy(in2[391:395], nd.Bytes(4)) // another published time
+	l2, rem2, err2 := lease_set2.ReadLeaseSet2(in2)
+	if err2 != nil {
+		return
+	}
+	if l2.Verify() != nil {
+		return
+	}
+	nd.Cover("second-verified")
+	authentic("seq/ls2", in2, len(in2)-len(rem2), []byte{3}, destKeyOf(in2, 7), 7, -1, 0)
+}
